@@ -228,6 +228,7 @@ def plan_C09(run):
     run.require_classes(PRED_CLASSES, "predict-campaign")
     m = q(run, 150, 3000)
     campaign(run, "perm-groups", {"C09"}, lambda s, r: drivers.perm_groups(s, r, m, "C09", ops=("win",), exhaustive_upto=q(run, 3, 5), max_teams=8))
+    campaign(run, "saturated-tie-perms", {"C09"}, lambda s, r: drivers.saturated_tie_perms(s, r, "C09", ("win",)))
     campaign(run, "increments", {"C09"}, lambda s, r: drivers.predict_relations(s, r, m))
     run.require_classes(["group:C09:perm", "group:C09:inc"], "relations")
     return {"rule": "predict_win on random games: distribution clauses; permuted presentations; one member's mu raised by a ladder of steps from 1 ulp to 10 beta"}
@@ -243,6 +244,7 @@ def plan_C10(run):
     run.require_classes(PRED_CLASSES, "predict-campaign")
     m = q(run, 150, 3000)
     campaign(run, "perm-groups", {"C10"}, lambda s, r: drivers.perm_groups(s, r, m, "C10", ops=("draw",), exhaustive_upto=q(run, 3, 5), max_teams=8))
+    campaign(run, "saturated-tie-perms", {"C10"}, lambda s, r: drivers.saturated_tie_perms(s, r, "C10", ("draw",)))
     campaign(run, "gap-equalised", {"C10"}, lambda s, r: drivers.predict_relations(s, r, m))
     run.require_classes(["group:C10:perm", "group:C10:gap", "group:C10:equalised"], "relations")
     return {"rule": "predict_draw on random games: range; order independence; two-team widening gaps; equalised totals",
@@ -284,6 +286,7 @@ def plan_C13(run):
     campaign(run, "foreign-pairs", {"C13"}, lambda s, r: drivers.foreign_pairs(s, r))      # all 20 ordered (host, foreign) pairs
     n = q(run, 4, 120)
     campaign(run, "malformed-grammar", {"C13"}, lambda s, r: drivers.malformed_campaign(s, r, n))
+    campaign(run, "damaged-in-place", {"C13"}, lambda s, r: drivers.damaged_in_place(s, r))
     run.require_classes(["malformed", "raise:TypeError", "raise:ValueError", "ok", "op=win", "op=draw", "op=rank"], "malformed-grammar")
     m = q(run, 600, 10000)
     campaign(run, "rate-campaign", {"C13"}, lambda s, r: drivers.rate_campaign(s, r, m))
